@@ -34,4 +34,11 @@ func c19(c *Ctx) {
 	// a failing PacketsParser substitutes nothing: data never travel with an error (rule C09c)
 	crcgate.NoDataWithoutCheck(c.P, r)
 	r.Floor("C19", "obligations", len(r.Obls), 15)
+	// units shown to the parser and packets shown to the skipper stay what they were (S3); every unit is shown, also the
+	// last ones at the end of the stream (R1); no unit is lost with its accumulator or its pool (I8); the skipper survives
+	// re-detection because there is none (P8)
+	joinS3(c)
+	joinDrain(c)
+	joinI8(c)
+	joinP8(c)
 }
